@@ -97,6 +97,18 @@ static void run_case(Ctx& c, uint64_t idx) {
     if (idx % 2) fW->run(c, name, ux); else fA->run(c, name, ux);
     if (idx % 20000 == 5) c.sample(ux ? "unix" : "windows", esc(name));
 }
-static Monitor mon = {"file", "C18: filename <-> URI string round trip, validity, form, documented sizes", "C18", ncases, run_case, nullptr};
+static void fuzz_one(Ctx& c, const unsigned char* d, size_t n) {
+    if (!fA) { fA = new F<ApiA>(); fW = new F<ApiW>(); }
+    if (n < 1) return; if (n > 300) n = 300; bool ux = d[0] & 1; bool wide = d[0] & 2; Str name((const char*)d + 1, n - 1); for (auto& ch : name) if (!ch) ch = 'x';
+    if (!ux) {   // stay inside C18's domain: backslash separators only; drive-absolute, UNC with non-empty server, or relative
+        for (auto& ch : name) if (ch == '/') ch = '\\';
+        bool unc = name.size() >= 2 && name[0] == '\\' && name[1] == '\\';
+        if (unc && (name.size() == 2 || name[2] == '\\')) return;
+        if (!unc && name.size() >= 2 && name[1] == ':' && !((isalpha((unsigned char)name[0])) && name.size() >= 3 && name[2] == '\\')) return;
+    }
+    c.distinct(hash_str(name, ux));
+    if (wide) fW->run(c, name, ux); else fA->run(c, name, ux);
+}
+static Monitor mon = {"file", "C18: filename <-> URI string round trip, validity, form, documented sizes", "C18", ncases, run_case, nullptr, fuzz_one};
 VF_REGISTER(mon);
 }
